@@ -3,6 +3,7 @@ from __future__ import annotations
 
 import random
 
+from streamflow.core.workflow import Token
 from streamflow.recovery import utils as ru
 
 from sfv.framework import Ctx, Property
@@ -231,6 +232,49 @@ CORPUS = [
 ]
 
 
+# ------------------------------------------------------------------------------------------------
+# GraphMapper: port_tokens / token_instances / token_availability must stay in step with the token graph
+# ------------------------------------------------------------------------------------------------
+def _mk_token(i, tag):
+    t = Token(value=i, tag=tag)
+    t.persistent_id = i
+    return t
+
+
+def mapper_consistent(m) -> str | None:
+    nodes = set(m.dag_tokens._successors.keys())
+    inst, av = set(m.token_instances.keys()), set(m.token_availability.keys())
+    pt = set().union(*m.port_tokens.values()) if m.port_tokens else set()
+    if not (nodes == inst == av == pt):
+        return f"graph nodes {sorted(nodes)}, token_instances {sorted(inst)}, token_availability {sorted(av)}, port_tokens {sorted(pt)}"
+    for p, ts in m.port_tokens.items():
+        if not ts:
+            return f"port {p} is left with no token"
+        if p not in m.dcg_ports._successors:
+            return f"port {p} has tokens but is not in the port graph"
+    for i, t in m.token_instances.items():
+        if t.persistent_id != i:
+            return f"token_instances[{i}] holds the token {t.persistent_id}"
+    return mirror_ok(m.dag_tokens) or mirror_ok(m.dcg_ports)
+
+
+def gen_mapper_case(rng: random.Random):
+    """a random token DAG over 1..4 ports (tokens of a port have distinct tags), then move_token_to_root / replace_token"""
+    n = rng.randint(2, 10)
+    ports = [f"p{i}" for i in range(rng.randint(1, 4))]
+    used, toks = set(), {}
+    for i in range(1, n + 1):
+        while True:
+            p, tag = rng.choice(ports), ".".join(str(rng.randint(0, 12)) for _ in range(rng.randint(1, 2)))
+            if (p, tag) not in used:
+                used.add((p, tag))
+                break
+        toks[i] = (p, tag, rng.random() < 0.5)
+    edges = [(i, j) for i in range(1, n + 1) for j in range(i + 1, n + 1) if rng.random() < 0.35]
+    steps = [(rng.random(), rng.random(), rng.random() < 0.5, rng.random() < 0.5) for _ in range(rng.randint(1, 7))]
+    return {"tokens": toks, "edges": edges, "steps": steps}
+
+
 class C20(Property):
     pid = "C20"
     title = "Provenance graph operations keep the graph consistent"
@@ -240,7 +284,9 @@ class C20(Property):
     translators = []
     rule = ("random operation histories (add with/without target, remove_nodes with 0..3 targets incl. absent and repeated ones, "
             "with and without prune_dead_end, replace incl. existing/absent/same node, promote_to_source) on graphs of <= 12 nodes, "
-            "half of them acyclic (edges low->high) and half with cycles and self-loops, plus a boundary corpus. After every "
+            "half of them acyclic (edges low->high) and half with cycles and self-loops, plus a boundary corpus; and GraphMapper "
+            "histories (a random token DAG over 1..4 ports, then move_token_to_root / replace_token) whose dag_tokens is compared "
+            "in the same way and whose port_tokens / token_instances / token_availability must stay in step with it. After every "
             "operation the real DirectedAcyclicGraph's two maps and return value are compared with (1) an independent reference "
             "graph (node set + edge set + least-fixpoint closure) = the property monitor, (2) the Lean model (driver). "
             "Non-trivial = distinct history containing a removal/replace/promote on a graph with at least one edge.")
@@ -259,6 +305,7 @@ class C20(Property):
     level_note = ("Lean kernel, axioms within {propext, Classical.choice, Quot.sound}; hand-written model tied to the code by the "
                   "correspondence check only (no translator: the code is loops over sets, not a table)")
     assumptions = ["node objects behave like values with equality (ints / strings); single-threaded use (no await inside the methods)"]
+    quick_budget_s = 480          # generous: the machine may be heavily loaded
     min_nontrivial = 50
 
     # -- one history on real code, reference, and (queued) model ---------------------------------
@@ -302,9 +349,74 @@ class C20(Property):
         ctx.case({"ops": [list(o) for o in ops[:12]], "final": dump_real(g)},
                  ("h", repr(ops)) if nontriv else None, bucket)
 
+    def _run_mapper(self, ctx: Ctx, case, lines, expect, meta):
+        m, ref = ru.GraphMapper(None), RefGraph()
+        toks = {int(i): v for i, v in case["tokens"].items()}
+        info = {i: ru.ProvenanceToken(_mk_token(i, tag), av, 100 + int(p[1:]), p) for i, (p, tag, av) in toks.items()}
+        ops = []          # the same history as plain graph operations (for the Lean model of dag_tokens)
+        lines.append("new")
+        expect.append("ok")
+        meta.append((ops, -1))
+
+        def sync(op, what):
+            ops.append(op)
+            ctx.count("mapper:" + what)
+            bad = mapper_consistent(m)
+            if bad:
+                ctx.fail("mapper:inconsistent:" + what, f"after {what} {op}: {bad}", {"mapper": case})
+                return False
+            real = dump_real(m.dag_tokens)
+            if real != dump_ref(ref):
+                ctx.fail("mapper:token-graph-differs:" + what, f"after {what} {op}: dag_tokens {real}, plain graph {dump_ref(ref)}", {"mapper": case})
+                return False
+            lines.append(op_line(op))
+            expect.append("*|" + real)
+            meta.append((ops, len(ops) - 1))
+            return True
+
+        ok = True
+        with_succ = {i for i, _ in case["edges"]}
+        for i in sorted(toks):
+            if not ok:
+                break
+            if i not in with_succ:
+                m.add(info[i])
+                ref.add(i)
+                ok = sync(("add", i, None), "add")
+            for a, b in case["edges"]:
+                if a == i and ok:
+                    m.add(info[a], info[b])
+                    ref.add(a, b)
+                    ok = sync(("add", a, b), "add")
+        nid = max(toks) + 1
+        for r1, r2, av, then_root in case["steps"]:
+            live = sorted(m.token_instances)
+            if not ok or not live:
+                break
+            t = live[int(r2 * len(live))]
+            if r1 < 0.5:
+                m.move_token_to_root(t)
+                ref.promote(t)
+                ok = sync(("prom", t), "move_token_to_root")
+            else:
+                port = next(pp for pp, ts in m.port_tokens.items() if t in ts)
+                new = _mk_token(nid, m.token_instances[t].tag)
+                nid += 1
+                m.replace_token(port, new, av)
+                ref.replace(t, new.persistent_id)
+                ok = sync(("rep", t, new.persistent_id), "replace_token")
+                if ok and then_root:
+                    m.move_token_to_root(new.persistent_id)
+                    ref.promote(new.persistent_id)
+                    ok = sync(("prom", new.persistent_id), "move_token_to_root")
+        ctx.case({"mapper": {"tokens": len(toks), "edges": len(case["edges"]), "ops": [list(o) for o in ops[-6:]]}},
+                 ("mapper", repr(case)), "mapper")
+
     def explore(self, ctx: Ctx) -> None:
         rng = ctx.rng
         lines, expect, meta = [], [], []
+        for _ in range(400 if ctx.tier == "quick" else 4000):
+            self._run_mapper(ctx, gen_mapper_case(rng), lines, expect, meta)
         for ops in CORPUS:
             self._run_history(ctx, ops, lines, expect, meta, "corpus")
             ctx.corpus_replayed += 1
@@ -313,7 +425,9 @@ class C20(Property):
             n *= 3
         for k in range(n):
             if ctx.out_of_time():
-                ctx.extra["incomplete"] = True
+                ctx.extra["histories_run"] = k
+                if k < 300:
+                    ctx.extra["incomplete"] = True
                 break
             dag = k % 2 == 0
             nmax = rng.choice([2, 3, 4, 5, 6, 8, 12])
@@ -335,12 +449,24 @@ class C20(Property):
         got = ctx.lean(DRIVER, lines)
         bad = set()
         for gl, e, (ops, i) in zip(got, expect, meta):
+            if e.startswith("*|"):                      # mapper histories: only the graph is compared
+                gl, e = gl.split("|", 1)[-1], e[2:]
             if gl != e and id(ops) not in bad:
                 bad.add(id(ops))
                 ctx.disagree("model vs DirectedGraph", f"after {ops[: i + 1]}: code {e!r}, Lean model {gl!r}", {"ops": ops[: i + 1]})
 
     def replay(self, ctx: Ctx, data) -> None:
         r = data.get("replay") or (data.get("no_longer_checks") or [{}])[0].get("case") or {}
+        if "mapper" in r:
+            case = r["mapper"]
+            case["tokens"] = {int(k): tuple(v) for k, v in case["tokens"].items()}
+            case["edges"] = [tuple(e) for e in case["edges"]]
+            case["steps"] = [tuple(x) for x in case["steps"]]
+            lines, expect, meta = [], [], []
+            self._run_mapper(ctx, case, lines, expect, meta)
+            for ln, e in zip(lines, expect):
+                print(ln, "->", e)
+            return
         ops = [tuple(o) for o in r.get("ops", [])]
         if not ops:
             return super().replay(ctx, data)
